@@ -235,6 +235,8 @@ func debugOnlyDiagnostics(c Cfg, rec *Recorder) *Disc {
 	model := NewOriginModel(c.Origins)
 	_, _, names := listedReqHdrs(c)
 	full := strings.Join(names, ",")
+	// the status of a refused preflight is not documented: take it from a preflight from the null origin
+	refusal := Do(m0.Wrap, Preflight("null", "GET"), nil).Status
 	for _, r := range Suite(c) {
 		off := Do(m0.Wrap, r, nil)
 		on := Do(m1.Wrap, r, nil)
@@ -272,19 +274,19 @@ func debugOnlyDiagnostics(c Cfg, rec *Recorder) *Disc {
 				}
 			}
 			_, hasACRH := r.Get(hACRH)
-			if !eqStrs(on.Hdr[hACAH], off.Hdr[hACAH]) && !(hasACRH && full != "" && eq1(on.Hdr[hACAH], full)) {
+			if !eqStrs(on.Hdr[hACAH], off.Hdr[hACAH]) && !(hasACRH && full != "" && sameTokens(on.Hdr[hACAH], []string{full})) {
 				return discf("debug mode changes ACAH of a successful preflight (request carries ACRH: %v) to something other than the full configured list %q in answer to requested headers: %s", hasACRH, full, where)
 			}
 			continue
 		}
 		// failing preflight
-		if len(off.Hdr[hACAO]) != 0 || off.Status != 403 {
+		if len(off.Hdr[hACAO]) != 0 || off.Status != refusal {
 			continue // odd debug-off response; C16 judges it
 		}
 		if !c.AllowAll() && !model.DenotedBy(origin) && !bracketedHostEcho(model, origin) {
 			return discf("debug mode changes the response on the origin-failure path: %s", where)
 		}
-		if on.Status != 403 && on.Status != c.SuccessStatus() {
+		if on.Status != refusal && on.Status != c.SuccessStatus() {
 			return discf("debug mode answers a failing preflight with status %d: %s", on.Status, where)
 		}
 	}
